@@ -277,6 +277,7 @@ pub fn run_history(rt: &tokio::runtime::Runtime, p: &Profile, seed: u64, idx: u6
     world.p_err = p.p_err;
     world.p_panic = p.p_panic;
     world.p_gate = p.p_gate;
+    world.p_wrap_panic = (p.p_panic / 2).max(1);
     world.keep_log = keep_log;
     world.ev(format!("history {} of profile {} seed {}: {}", idx, p.name, seed, cfg_desc));
     let w = Arc::new(Mutex::new(world));
